@@ -28,6 +28,7 @@ class Event(object):
         self.label = label
         self.payload = payload
         self.seq = None
+        self.ctx = None
 
     def __repr__(self):
         return '<%s %s>' % (self.kind, self.label)
@@ -298,7 +299,12 @@ class World(object):
 
     # -- events -------------------------------------------------------------
     def post(self, ev):
+        # the sender's security context travels with the message (RPC
+        # context serialisation / ScheduledJob.auth_ctx)
+        from mistral import context
         ev.seq = next(self._seq)
+        if getattr(ev, 'ctx', None) is None:
+            ev.ctx = context.ctx() if context.has_ctx() else None
         self.events.append(ev)
 
     def pending(self, kind=None):
@@ -322,6 +328,16 @@ class World(object):
         """Deliver a pending event to the real code."""
         if not keep:
             self.take(ev)
+        from mistral import context
+        old = context.ctx() if context.has_ctx() else None
+        if getattr(ev, 'ctx', None) is not None:
+            context.set_ctx(ev.ctx)
+        try:
+            return self._deliver(ev, result)
+        finally:
+            context.set_ctx(old)
+
+    def _deliver(self, ev, result):
         if ev.kind == 'rpc':
             name, a, kw = ev.payload
             return self.call(name, *a, **kw)
